@@ -1,7 +1,6 @@
 package main
 
 import (
-	"time"
 	"crypto/md5"
 	"crypto/sha1"
 	"crypto/sha256"
@@ -13,6 +12,7 @@ import (
 	"fmt"
 	"net/url"
 	"strings"
+	"time"
 
 	"github.com/php-any/origami/data"
 
